@@ -143,7 +143,7 @@ class SimStream(trio.abc.HalfCloseableStream):
         self._in_wake.set()
 
     def net_feed(self, data):
-        if self._closed or self._broken:
+        if self._closed or self._broken or self._in_eof:
             return False
         self._in += data
         self._wake_in()
